@@ -276,7 +276,7 @@ def build(f, space, sp, variant=0):
         b = vec(f['u']) if f['u'] else None
         return S.QuadraticForm(operator=A, vector=b, constant=float(c))
     if op == 'Const':
-        return S.ConstantFunctional(space, float(c))
+        return S.ZeroFunctional(space) if c == 0 else S.ConstantFunctional(space, float(c))
     if op == 'KL':
         return S.KullbackLeibler(space, prior=vec(f['v']))
     if op == 'KLcc':
